@@ -83,6 +83,7 @@ func validateFields(doc *ast.Document, s *schema.Schema, features schema.Feature
 
 	ast.Inspect(doc, func(node ast.Node) bool {
 		if node, ok := node.(*ast.SelectionSet); ok {
+			verifCount(verifSiteFieldsSet)
 			set := map[string][]fieldAndParent{}
 			if err := addFieldSelections(set, node, fragmentDefinitions); err != nil {
 				ret = append(ret, err)
@@ -140,6 +141,7 @@ func validateFieldsInSetCanMerge(fieldsForName map[string][]fieldAndParent, frag
 	for _, fields := range fieldsForName {
 		for i := 0; i < len(fields); i++ {
 			for j := i + 1; j < len(fields); j++ {
+				verifCount(verifSiteFieldsCanMergePair)
 				fieldA := fields[i].field
 				fieldB := fields[j].field
 				if visitFieldPair(memo.canMerge, fieldA, fieldB) {
@@ -246,6 +248,7 @@ func valuesAreIdentical(a, b ast.Value) bool {
 }
 
 func validateSameResponseShape(fieldA, fieldB *ast.Field, fragmentDefinitions map[string]*ast.FragmentDefinition, typeInfo *TypeInfo, memo *mergeMemo) *Error {
+	verifCount(verifSiteFieldsSameShape)
 	if visitFieldPair(memo.sameResponseShape, fieldA, fieldB) {
 		return nil
 	}
@@ -319,6 +322,7 @@ func validateSameResponseShape(fieldA, fieldB *ast.Field, fragmentDefinitions ma
 	for _, fields := range fieldsForName {
 		for i := 0; i < len(fields); i++ {
 			for j := i + 1; j < len(fields); j++ {
+				verifCount(verifSiteFieldsSameShapePair)
 				if err := validateSameResponseShape(fields[i].field, fields[j].field, fragmentDefinitions, typeInfo, memo); err != nil {
 					return err
 				}
@@ -348,6 +352,7 @@ func addFieldSelectionsWithCycleDetection(fieldsForName map[string][]fieldAndPar
 	visited[selectionSet] = struct{}{}
 
 	for _, selection := range selectionSet.Selections {
+		verifCount(verifSiteFieldsCollect)
 		switch selection := selection.(type) {
 		case *ast.Field:
 			name := selection.Name.Name
